@@ -1,0 +1,24 @@
+//go:build verif
+
+package server
+
+import (
+	"context"
+	"sync"
+
+	"github.com/sdcio/data-server/pkg/datastore"
+)
+
+// VerifNewServer builds a Server that only knows the given datastores: no
+// listener, no schema / cache clients. Verification harness only (streaming
+// handlers are called directly with harness-owned streams).
+func VerifNewServer(ctx context.Context, dss map[string]*datastore.Datastore) *Server {
+	ctx, cancel := context.WithCancel(ctx)
+	return &Server{
+		ctx:        ctx,
+		cfn:        cancel,
+		ready:      true,
+		md:         &sync.RWMutex{},
+		datastores: dss,
+	}
+}
